@@ -40,6 +40,10 @@
 #include "result_to_v2_accessibility.hpp"
 #include "result_to_v2_summary.hpp"
 
+// line short names are deliberately NOT unique (lines 0 and 2 share "L0", every fourth line has an empty one): anything that
+// identifies a line by its short name instead of its uuid collapses two lines (check/canon.py line_short mirrors this)
+static inline std::string verifLineShortname(size_t i) { return i % 4 == 3 ? std::string("") : "L" + std::to_string(i % 2); }
+
 using namespace TrRouting;
 
 extern "C" void trrouting_verif_point(const char *) {}
@@ -101,7 +105,7 @@ struct Fetch : DataFetcher {
   int getLines(std::map<boost::uuids::uuid, Line>& ts, const std::map<boost::uuids::uuid, Agency>& ag, const std::map<std::string, Mode>& modes, std::string) override {
     ts.clear();
     for (size_t i = 0; i < d.lines.size(); i++)
-      ts.emplace(mk(4, i), Line(mk(4, i), ag.at(mk(2, d.lines[i].agency)), modes.at(MODES[d.lines[i].mode]), "L" + std::to_string(i), "Line" + std::to_string(i), "", 0));
+      ts.emplace(mk(4, i), Line(mk(4, i), ag.at(mk(2, d.lines[i].agency)), modes.at(MODES[d.lines[i].mode]), verifLineShortname(i), "Line" + std::to_string(i), "", 0));
     return 0;
   }
   int getPaths(std::map<boost::uuids::uuid, Path>& ts, const std::map<boost::uuids::uuid, Line>& lines, const std::map<boost::uuids::uuid, Node>& nodes, std::string) override {
